@@ -155,7 +155,7 @@ def run(ctx):
     thorough = ctx["tier"] == "thorough"
     viol, corr = [], []
     import regress
-    for name, r in regress.run(["golomb_own_consistency_enumeration", "golomb_two_marks_symmetry_breaking"]).items():
+    for name, r in regress.run(["golomb_own_consistency_enumeration", "golomb_two_marks_symmetry_breaking", "golomb_own_consistency_loses_rulers"]).items():
         report.cov["evaluations"] += 1
         report.count("corpus", name)
         if not r["ok"]:
@@ -421,6 +421,38 @@ def run(ctx):
             if sets[0] != sets[1]:
                 viol.append({"kind": "example", "model": "golomb", "args": [marks, 1],
                              "detail": f"the model's own consistency algorithm changes the solution set: {len(sets[0])} vs {len(sets[1])} under plain bound consistency"})
+    # random sub-boxes of the Golomb model (some first marks given, the length capped — the states minimisation itself creates):
+    # the model's own consistency algorithm must enumerate exactly the rulers plain bound consistency enumerates (D17)
+    for _ in range(4 if not thorough else 60):
+        marks = rng.choice([5, 6, 6])
+        sbf = rng.random() < 0.5
+        capl = rng.randint({5: 11, 6: 17}[marks], {5: 28, 6: 30}[marks])
+        pre = [0]
+        for _k in range(rng.randint(0, 3)):
+            pre.append(pre[-1] + rng.randint(1, 8))
+        dd = [b_ - a_ for a_, b_ in itertools.combinations(pre, 2)]
+        if len(set(dd)) != len(dd):
+            continue
+        sets = []
+        try:
+            with nv.guard(250):
+                for idx in (gidx, 0):
+                    gp = GolombProblem(marks, sbf)
+                    for j_ in range(1, len(pre)):
+                        gp.shr_domains_lst[G.index(marks, 0, j_)] = [pre[j_], pre[j_]]
+                    lo_, hi_ = gp.shr_domains_lst[gp.length_idx]
+                    gp.shr_domains_lst[gp.length_idx] = [lo_, min(hi_, capl)]
+                    sets.append(sorted(tuple(int(x) for x in s_[: marks - 1]) for s_ in BacktrackSolver(gp, consistency_alg_idx=idx, log_level="ERROR").solve()))
+        except Exception as e:  # noqa: BLE001
+            viol.append({"kind": "example", "model": "golomb", "args": [marks, int(sbf), capl, pre], "detail": f"sub-box enumeration: {type(e).__name__}: {e}"})
+            continue
+        report.cov["evaluations"] += 2
+        report.count("golomb_sub_boxes", f"{marks}:{len(sets[1])}")
+        bad_r = [r_ for s2 in sets for r_ in s2 if not v_golomb([0] + list(r_), r_[-1])]
+        if sets[0] != sets[1] or bad_r:
+            lost = [r_ for r_ in sets[1] if r_ not in sets[0]][:3]
+            viol.append({"kind": "example", "model": "golomb", "args": [marks, int(sbf)], "given_marks": pre, "length_cap": capl,
+                         "detail": f"the model's own consistency algorithm enumerates {len(sets[0])} rulers, plain bound consistency {len(sets[1])}; lost: {lost}; invalid: {bad_r[:2]}"})
     w, v, cap = [4, 5, 6, 7], [3, 2, 4, 5], 8
     kp = KnapsackProblem(w, v, cap)
     r = nv.impl_optimize(from_problem(kp), nv.Cfg(), kp.weight, False)
